@@ -8,6 +8,7 @@ import (
 	"pgregory.net/rapid"
 
 	"verif/lib/ev"
+	"verif/lib/sched"
 )
 
 // storeLoadCycle backs up a drawn open snapshot, restores it into a fresh
@@ -98,6 +99,7 @@ func (w *World) storeLoadCycle(t *rapid.T, st *ev.Stats, checkAlloc bool) (nontr
 func TestC05(t *testing.T) {
 	st := ev.Get("C05", "TestC05")
 	rapid.Check(t, func(t *rapid.T) {
+		sched.SeedRand(t)
 		cfg := genCfg(t, -1, true)
 		w := NewWorld(t, cfg, st)
 		defer w.Teardown()
